@@ -358,6 +358,18 @@ theorem sim_step (c : Ctx) (a0 : Arr) (st : AState) (ls : List LObj) (hR : Rel a
           simp only [List.mem_cons, not_or]
           exact ⟨fun h => hb h.symm, hR.unwritten⟩
       · simp [ho] at hL
+  | viewOf src =>
+    rcases rel_get hR src with ⟨h1, h2⟩ | ⟨a, l, h1, h2, hO⟩
+    · simp [stepA, stepL, h1, h2, Agrees]
+    · simp only [stepA, stepL, h1, h2, Agrees]
+      exact rel_append hR a l st.nextBuf hR.nb hO
+  | computed =>
+    simp only [stepA, stepL, Agrees]
+    have hnew : ORel
+        { buf := st.nextBuf, shape := [1], strides := [1], writeable := true, vals := [] }
+        { shape := [1], vals := [], own := true, ro := false } :=
+      ⟨rfl, rfl, by simp, by intro _; have := hR.nb; exact ⟨by simp; omega, by simp⟩⟩
+    exact rel_append hR _ _ (st.nextBuf + 1) (by omega) hnew
 
 theorem sim_run (c : Ctx) (a0 : Arr) : ∀ (ops : List AOp) (st : AState) (ls : List LObj),
     Rel a0 st ls → runL c ls ops ≠ .error .layoutDependent →
@@ -389,8 +401,9 @@ theorem sim_run (c : Ctx) (a0 : Arr) : ∀ (ops : List AOp) (st : AState) (ls : 
 theorem stepL_err (c : Ctx) (ls : List LObj) (op : AOp) (e : Err)
     (h : stepL c ls op = .error (.err e)) : e ≠ .notInPlace := by
   intro he; subst he
-  cases op <;> simp only [stepL] at h <;> (split at h <;> try (simp at h)) <;>
-    (try (split at h <;> try (simp at h))) <;> (try (split at h <;> try (simp at h)))
+  cases op <;> simp only [stepL] at h <;> (try (split at h <;> try (simp at h))) <;>
+    (try (split at h <;> try (simp at h))) <;> (try (split at h <;> try (simp at h))) <;>
+    (try (simp at h))
 
 theorem runL_err (c : Ctx) : ∀ (ops : List AOp) (ls : List LObj) (e : Err),
     runL c ls ops = .error (.err e) → e ≠ .notInPlace := by
@@ -720,6 +733,25 @@ theorem static_step (c : Ctx) (rank : Nat) (hrank : rank = 0 ∨ c.inShape.lengt
         simp [stepL, hl, h1, h2]
       · have hc' : (s.own && !s.ro) = false := by simpa using hc
         simp [hc'] at h
+  | viewOf src =>
+    simp only [stepS] at h
+    cases hs : ss[src]? with
+    | none => rw [hs] at h; simp at h
+    | some s =>
+      rw [hs] at h
+      simp only [Option.some.injEq] at h
+      obtain ⟨l, hl, hO⟩ := srel_get hR src s hs
+      left
+      have hstep : stepL c ls (.viewOf src) = .ok (ls ++ [l]) := by simp [stepL, hl]
+      refine ⟨_, hstep, ?_⟩
+      subst h
+      exact srel_append hR _ _ ⟨by simp [shapeMatches], hO.own, hO.ro⟩
+  | computed =>
+    simp only [stepS, Option.some.injEq] at h
+    left
+    refine ⟨_, rfl, ?_⟩
+    subst h
+    exact srel_append hR _ _ ⟨by simp [shapeMatches], rfl, rfl⟩
 
 theorem static_run (c : Ctx) (rank : Nat) (hrank : rank = 0 ∨ c.inShape.length = rank) :
     ∀ (ops : List AOp) (ss : List SymObj) (ls : List LObj), SRel c ss ls →
